@@ -101,88 +101,7 @@ func checkC04(c *core.Ctx) {
 
 	inputNeverWritten(c, c.Rule("R4.6", "T", "decode code never writes the bytes it is given (= R2.2): under NoCopy they are the caller's buffer, so a write there — including an append into spare capacity behind the packet — makes NoCopy differ from default decoding"), effects(p))
 	r5 := c.Rule("R4.5", "T", "decoders see exactly len(data) bytes: no decode-reachable function extends a byte slice it was given past its length (s[:cap(s)], s[:len(s)+k])")
-	{
-		roots := p.Roots()
-		nSl, nPos := 0, 0
-		for _, fn := range core.SortedFns(roots.DecReach) {
-			if fn.Pkg == nil || strings.HasSuffix(p.Pos(fn.Pos()), "_test.go") {
-				continue
-			}
-			k := 0
-			core.Instrs(fn, func(ins ssa.Instruction) {
-				sl, ok := ins.(*ssa.Slice)
-				if !ok || !core.IsByteSlice(sl.X.Type()) {
-					return
-				}
-				nSl++
-				if sl.High == nil {
-					return
-				}
-				beyond := ""
-				var scan func(v ssa.Value, d int)
-				scan = func(v ssa.Value, d int) {
-					if d > 6 {
-						return
-					}
-					switch x := v.(type) {
-					case *ssa.Convert:
-						scan(x.X, d+1)
-					case *ssa.BinOp:
-						if x.Op == token.ADD {
-							for _, pair := range [][2]ssa.Value{{x.X, x.Y}, {x.Y, x.X}} {
-								if of, isL := core.IsLen(pair[0]); isL && of == sl.X {
-									if kk, ok := core.ConstFold(pair[1]); !ok || kk > 0 {
-										beyond = "len(s)+k"
-									}
-								}
-							}
-						}
-						scan(x.X, d+1)
-						scan(x.Y, d+1)
-					case *ssa.Call:
-						if nm, cc := core.BuiltinCall(x); nm == "cap" && core.IsByteSlice(cc.Args[0].Type()) {
-							beyond = "cap(s)"
-						}
-					}
-				}
-				scan(sl.High, 0)
-				if beyond == "" {
-					return
-				}
-				// provenance: a slice the function made itself is its own to extend
-				root := sl.X
-				for i := 0; i < 8; i++ {
-					switch y := root.(type) {
-					case *ssa.Slice:
-						root = y.X
-						continue
-					case *ssa.ChangeType:
-						root = y.X
-						continue
-					}
-					break
-				}
-				switch root.(type) {
-				case *ssa.MakeSlice, *ssa.Alloc:
-					return
-				}
-				nPos++
-				k++
-				key := core.FnKey(fn) + "/extends-slice"
-				if k > 1 {
-					key += "#" + string(rune('0'+k))
-				}
-				r5.Violate(key, p.InstrPos(ins), "the slice is re-sliced up to "+beyond+": bytes behind the packet in the caller's buffer (NoCopy) or stale bytes of the pool block (Pool) take part in decoding, so the result differs from default decoding of the same bytes; elements behind a reused layer's slice likewise expose an earlier packet's values", nil)
-			})
-		}
-		c.Counts["decode_reachable_byte_slices"] = nSl
-		if nSl < 500 {
-			r5.Missing("decode/slices", fmt.Sprintf("only %d byte-slice expressions seen in decode-reachable code", nSl))
-		}
-		if nPos == 0 {
-			r5.OK("decode/no-extension", "", fmt.Sprintf("%d byte-slice expressions in decode-reachable code, none extends past len", nSl))
-		}
-	}
+	noSliceExtension(c, r5)
 
 	np := p.Func("", "NewPacket")
 	if np == nil {
@@ -654,4 +573,97 @@ func storesDominatedBy(np *ssa.Function, ins ssa.Instruction) bool {
 		}
 	})
 	return ok
+}
+
+// noSliceExtension (R4.5 = R2.8): no decode-reachable function re-slices a
+// byte slice it did not make itself up to its capacity or beyond its length;
+// the bound is followed through conversions, additions and merges.
+func noSliceExtension(c *core.Ctx, r5 *core.Rule) {
+	p := c.P
+	{
+		roots := p.Roots()
+		nSl, nPos := 0, 0
+		for _, fn := range core.SortedFns(roots.DecReach) {
+			if fn.Pkg == nil || strings.HasSuffix(p.Pos(fn.Pos()), "_test.go") {
+				continue
+			}
+			k := 0
+			core.Instrs(fn, func(ins ssa.Instruction) {
+				sl, ok := ins.(*ssa.Slice)
+				if !ok || !core.IsByteSlice(sl.X.Type()) {
+					return
+				}
+				nSl++
+				if sl.High == nil {
+					return
+				}
+				beyond := ""
+				var scan func(v ssa.Value, d int)
+				scan = func(v ssa.Value, d int) {
+					if d > 6 {
+						return
+					}
+					switch x := v.(type) {
+					case *ssa.Convert:
+						scan(x.X, d+1)
+					case *ssa.Phi:
+						for _, e := range x.Edges {
+							scan(e, d+1)
+						}
+					case *ssa.BinOp:
+						if x.Op == token.ADD {
+							for _, pair := range [][2]ssa.Value{{x.X, x.Y}, {x.Y, x.X}} {
+								if of, isL := core.IsLen(pair[0]); isL && of == sl.X {
+									if kk, ok := core.ConstFold(pair[1]); !ok || kk > 0 {
+										beyond = "len(s)+k"
+									}
+								}
+							}
+						}
+						scan(x.X, d+1)
+						scan(x.Y, d+1)
+					case *ssa.Call:
+						if nm, cc := core.BuiltinCall(x); nm == "cap" && core.IsByteSlice(cc.Args[0].Type()) {
+							beyond = "cap(s)"
+						}
+					}
+				}
+				scan(sl.High, 0)
+				if beyond == "" {
+					return
+				}
+				// provenance: a slice the function made itself is its own to extend
+				root := sl.X
+				for i := 0; i < 8; i++ {
+					switch y := root.(type) {
+					case *ssa.Slice:
+						root = y.X
+						continue
+					case *ssa.ChangeType:
+						root = y.X
+						continue
+					}
+					break
+				}
+				switch root.(type) {
+				case *ssa.MakeSlice, *ssa.Alloc:
+					return
+				}
+				nPos++
+				k++
+				key := core.FnKey(fn) + "/extends-slice"
+				if k > 1 {
+					key += "#" + string(rune('0'+k))
+				}
+				r5.Violate(key, p.InstrPos(ins), "the slice is re-sliced up to "+beyond+": bytes behind the packet in the caller's buffer (NoCopy) or stale bytes of the pool block (Pool) take part in decoding, so the result differs from default decoding of the same bytes; elements behind a reused layer's slice likewise expose an earlier packet's values", nil)
+			})
+		}
+		c.Counts["decode_reachable_byte_slices"] = nSl
+		if nSl < 500 {
+			r5.Missing("decode/slices", fmt.Sprintf("only %d byte-slice expressions seen in decode-reachable code", nSl))
+		}
+		if nPos == 0 {
+			r5.OK("decode/no-extension", "", fmt.Sprintf("%d byte-slice expressions in decode-reachable code, none extends past len", nSl))
+		}
+	}
 }
